@@ -307,6 +307,19 @@ def c13_once(r, seed, tier, model_ok):
     the number of observer events must grow LINEARLY in k (call-by-name would need 2^k)"""
     R = random.Random(seed * 7919 + 0xC13)
     cases, stats = gen_programs(R, N(tier, 3000, 50000))
+    # a delayed expression that FAILS is shared like one that succeeds: bound to a parameter, needed under several tries, by the handler of the
+    # try whose body needed it, inside a returned closure and outside it, through copies of the list that holds it - and once more after the catches
+    FAULTS = ["(ㄴ ㄱ ㄴㄴㅎㄷ)", "(ㄴ (ㄱ ㅁㅈㅎㄴ) ㄷㅎㄷ)", "(ㅂ (ㄴ ㄷ ㅁㄹㅎㄷ) ㅎㄴ)", "(ㄹ ㅁ ㄷㅂㅎㄷ ㄷㅈㅎㄴ)", "(ㄹ (ㄴ ㄷ ㅅㅈㅎㄷ) ㅎㄴ)", "((ㄴ ㄱ ㄴㄴㅎㄷ) ㄴ ㄷㅎㄷ)"]
+    HS = ["(ㄱㅇㄱ ㅎ)", "(ㄴ ㄱㅇㄱ ㅎㄴ ㅎ)", "(ㅈㅈㄱ ㅎ)", "(ㄱㅇㄱ ㅈㄷㅎㄴ ㅎ)", "(ㄱㅇㄴ ㅎ)"]          # the last one: the handler needs the failed expression AGAIN
+    for _ in range(N(tier, 400, 6000)):
+        f = R.choice(FAULTS); k = R.randrange(5)
+        uses = [f"(ㄱㅇㄱ {R.choice(HS)} ㅅㄷㅎㄷ)" for _ in range(R.randrange(2, 5))]
+        if k == 0: t = f"{f} ({' '.join(uses)} ㅁㄹㅎ{G.enc(len(uses))} ㅎ) ㅎㄴ"
+        elif k == 1: t = f"{f} ((ㄱㅇㄱ {R.choice(HS)} ㅅㄷㅎㄷ) ((ㄱㅇㄴ (ㄱ ㅎ) ㅅㄷㅎㄷ) ㅎ) ㅎㄴ ㅎ) ㅎㄴ"                 # a closure built after the first catch needs it again
+        elif k == 2: t = f"({f} ㄴ ㅁㄹㅎㄷ) ((ㄱ (ㄱㅇㄱ ㄱㅇㄱ ㄷㅎㄷ) ㅎㄴ) (ㄱ ㅎ) ㅅㄷㅎㄷ  (ㄷ (ㄱㅇㄱ ㄱㅇㄱ ㄷㅎㄷ) ㅎㄴ) (ㄴ ㅎ) ㅅㄷㅎㄷ  (ㄱ ㄱㅇㄱ ㅎㄴ) (ㄷ ㅎ) ㅅㄷㅎㄷ ㅁㄹㅎㄹ ㅎ) ㅎㄴ"   # element 0 of l, of l+l (index 0 and 2)
+        elif k == 3: t = f"{f} (((ㄱㅇㄱ (ㄱㅇㄴ ㅎ) ㅅㄷㅎㄷ) (ㄱ ㅎ) ㅅㄷㅎㄷ) (ㄱㅇㄱ (ㄴ ㅎ) ㅅㄷㅎㄷ) ㅁㄹㅎㄷ ㅎ) ㅎㄴ"            # handler re-needs it, an outer try catches that, then needed once more
+        else: t = f"({f}) ({' '.join(uses)} (ㄱㅇㄱ) ㅁㄹㅎ{G.enc(len(uses) + 1)} ㅎ) ㅎㄴ"                                 # ... and once more outside any try
+        cases.append(dict(text=t, words=t.split()))
     out = vlib.pmap(_once_one, cases)
     bad = [dict(program=c["text"], impl=f"{o[3]} delayed expression(s) evaluated more than once from an empty cache; {o[4]} with two different result objects", model="at most once, result shared", which=["once"])
            for c, o in zip(cases, out) if o[3] or o[4]]
@@ -316,10 +329,12 @@ def c13_once(r, seed, tier, model_ok):
     fams = {"double-add": lambda k: "ㄴ" + " (ㄱㅇㄱ ㄱㅇㄱ ㄷㅎㄷ ㅎ) ㅎㄴ" * k,
             "double-list": lambda k: "ㄴ" + " (ㄱㅇㄱ ㄱㅇㄱ ㅁㄹㅎㄷ ㅎ) ㅎㄴ" * min(k, 14),
             "fan-out-3": lambda k: "ㄴ" + " (ㄱㅇㄱ ㄱㅇㄱ ㄱㅇㄱ ㄷㅎㄹ ㅎ) ㅎㄴ" * k,
-            "shared-in-branches": lambda k: "ㄴ" + " (ㄱㅇㄱ ㄱㅇㄱ ㄱㅇㄱ ㄱㅇㄱ ㄴㅎㄷ ㅎㄷ ㅎ) ㅎㄴ" * k}
+            "shared-in-branches": lambda k: "ㄴ" + " (ㄱㅇㄱ ㄱㅇㄱ ㄱㅇㄱ ㄱㅇㄱ ㄴㅎㄷ ㅎㄷ ㅎ) ㅎㄴ" * k,
+            # a FAILING expression handed down k levels of  \x. try(x, \_. x) : with failures cached each level does constant work, otherwise 2^k
+            "failed-retry": lambda k: "((ㄴ ㄱ ㄴㄴㅎㄷ)" + " ((ㄱㅇㄱ ((ㄱㅇㄴ) ㅎ) ㅅㄷㅎㄷ) ㅎ) ㅎㄴ" * k + ") (ㄱ ㅎ) ㅅㄷㅎㄷ"}
     bad2 = []; meas = {}
     for name, f in fams.items():
-        ks = [10, 20, 40, 80, 200] if name != "double-list" else [4, 8, 12, 14, 14]
+        ks = [10, 20, 40, 80, 200] if name not in ("double-list", "failed-retry") else [4, 8, 12, 14, 14] if name == "double-list" else [4, 8, 16, 32, 64]
         ev = [_once_one(dict(text=f(k), tlimit=20)) for k in ks]
         meas[name] = {k: e[1] for k, e in zip(ks, ev)}
         if name == "double-list": continue
@@ -327,11 +342,12 @@ def c13_once(r, seed, tier, model_ok):
             if e[0] not in ("ok",): bad2.append(dict(program=f"{name} k={k}: {f(k)[:80]}...", impl=e[0], model="completes (work proportional to the number of delayed expressions)", which=["linear"]))
         slope = (ev[1][1] - ev[0][1]) / (ks[1] - ks[0]); pred = ev[0][1] + slope * (ks[-1] - ks[0])
         if ev[-1][0] == "ok" and ev[-1][1] > 1.05 * pred + 10: bad2.append(dict(program=f"{name}: {f(3)}", impl=f"events: {meas[name]}", model=f"linear in k (predicted {pred:.0f} at k={ks[-1]})", which=["linear"]))
-    r.slice("sharing_families", sum(len(v) for v in meas.values()), 4 * 5, [fams["double-add"](3)], meas, "doubling / fan-out families: observer events linear in depth k (k up to 200)", bad2)
+    r.slice("sharing_families", sum(len(v) for v in meas.values()), 5 * 5, [fams["double-add"](3)], meas, "doubling / fan-out families: observer events linear in depth k (k up to 200)", bad2)
     if model_ok:
         # the NUMBER of delayed expressions whose evaluation begins: implementation (observer: started with an empty cache) vs Count.trace_main of the
         # model, about which evaluated_at_most_once / work_is_linear are theorems
-        sel = [(c, o) for c, o in zip(cases, out) if o[0] in ("ok", "err")][:N(tier, 1500, 20000)] + \
+        allsel = [(c, o) for c, o in zip(cases, out) if o[0] in ("ok", "err")]
+        sel = allsel[:N(tier, 1100, 15000)] + allsel[-N(tier, 400, 5000):] + \
               [(dict(text=f(k)), _once_one(dict(text=f(k), tlimit=20))) for f in fams.values() for k in (3, 10, 14, 40)]
         mo = vlib.driver("driver", ["TC\t" + ",".join(str(ord(ch)) for ch in c["text"]) for c, _ in sel])
         badc = [dict(program=c["text"], impl=f"{o[0]}: {o[2]} delayed expressions began evaluation", model=f"Count.trace_main: {m}", which=["evaluation-count"])
